@@ -117,8 +117,8 @@ MUTANTS = [
     ("c15_shared_scratch", "C15", "mir_eval/beat.py", "    beat_error = np.zeros(estimated_beats.shape[0])\n    for n in range(estimated_beats.shape[0]):",
      "    if _SCRATCH[0] is None or _SCRATCH[0].shape[0] != estimated_beats.shape[0]:\n        _SCRATCH[0] = np.zeros(estimated_beats.shape[0])\n    beat_error = _SCRATCH[0]\n    for n in range(estimated_beats.shape[0]):",
      ("def _get_entropy(", "_SCRATCH = [None]\n\n\ndef _get_entropy(")),
-    ("c15_sort_inplace", "C15", "mir_eval/util.py", "    ref = np.asarray(ref)\n    est = np.asarray(est)\n    ref_idx = np.argsort(ref)\n    ref_sorted = ref[ref_idx]\n",
-     "    ref = np.asarray(ref)\n    est = np.asarray(est)\n    ref_idx = np.argsort(ref)\n    ref_sorted = ref[ref_idx]\n    est += 0.0 * window\n    est[est < 0] = 0\n"),
+    ("c15_abs_inplace", "C15", "mir_eval/melody.py", "    normalized_frequency = np.abs(freq_hz[freq_nonz_ind]) / base_frequency",
+     "    np.abs(freq_hz, out=freq_hz)\n    normalized_frequency = freq_hz[freq_nonz_ind] / base_frequency"),
     # ---- C19 ----
     ("c19_sar_not_nan", "C19", "mir_eval/separation.py", "            sdr[:, k] = sir[:, k] = sar[:, k] = perm[:, k] = np.nan", "            sdr[:, k] = sir[:, k] = perm[:, k] = np.nan"),
     ("c19_isr_not_nan", "C19", "mir_eval/separation.py", "            sdr[:, k] = isr[:, k] = sir[:, k] = sar[:, k] = perm[:, k] = np.nan", "            sdr[:, k] = sir[:, k] = sar[:, k] = perm[:, k] = np.nan"),
@@ -131,7 +131,7 @@ MUTANTS = [
     # ---- C14 ----
     ("c14_onset_no_validate", "C14", "mir_eval/onset.py", "    validate(reference_onsets, estimated_onsets)\n    # If either list is empty, return 0s", "    # If either list is empty, return 0s"),
     ("c14_assertion_error", "C14", "mir_eval/util.py", "        raise ValueError(\"Negative interval times found\")", "        raise AssertionError(\"Negative interval times found\")"),
-    ("c14_cemgil_empty", "C14", "mir_eval/beat.py", "    if estimated_beats.size == 0 or reference_beats.size == 0:\n        return 0.0, 0.0\n    accuracies = []", "    accuracies = []"),
+    ("c14_cemgil_empty", "C14", "mir_eval/beat.py", "    if estimated_beats.size == 0 or reference_beats.size == 0:\n        return 0.0, 0.0\n    # We'll compute Cemgil's accuracy for each variation\n    accuracies = []", "    accuracies = []"),
     ("c14_chord_validate_est", "C14", "mir_eval/chord.py", "    for labels in [reference_labels, estimated_labels]:\n        for chord_label in labels:\n            validate_chord_label(chord_label)", "    for labels in [reference_labels]:\n        for chord_label in labels:\n            validate_chord_label(chord_label)"),
     ("c14_coincidence", "C14", "mir_eval/util.py", "        last_idx = np.argwhere(intervals[:, 0] >= t_max)", "        last_idx = np.argwhere(intervals[:, 0] > t_max)"),
     ("c14_coincidence_tmin", "C14", "mir_eval/util.py", "        first_idx = np.argwhere(intervals[:, 1] > t_min)", "        first_idx = np.argwhere(intervals[:, 1] >= t_min)"),
